@@ -45,7 +45,7 @@ func (c18) Batches(tier string, seed uint64) []core.Batch {
 }
 
 func (c18) Mandatory(tier string) []string {
-	m := []string{"reuse:version", "reuse:arch", "reuse:dependency", "reuse:result-aliasing", "conc:rounds", "conc:overlap>=2", "big:64KiB", "source:version", "source:dependency", "source:deb822", "source:typed", "source:changelog", "source:raw"}
+	m := []string{"reuse:version", "reuse:arch", "reuse:dependency", "reuse:result-aliasing", "conc:rounds", "conc:overlap>=2", "big:64KiB", "source:version", "source:dependency", "source:deb822", "source:typed", "source:changelog", "source:raw", "source:armored"}
 	for _, e := range c18Entries {
 		m = append(m, "entry:"+e.name+":ok")
 		if e.name != "dependency.ParseArch" && e.name != "dependency.ParseArchitectures" { // these accept every string
@@ -264,7 +264,45 @@ var c18Entries = []c18Entry{
 }
 
 // seedInput draws one well-formed text from one of the generators.
+// c18Armor wraps a document the way a clearsigned .dsc/.changes/Release looks (the signature is
+// syntactically armored junk: the parsers under test are called without a keyring), or produces a
+// near-miss of that framing.
+func c18Armor(r *core.Rand, doc string) string {
+	sig := "-----BEGIN PGP SIGNATURE-----\n\niQEzBAEBCAAdFiEE" + r.Str("ABCDEFGHIJKLMNOPQRSTUVWXYZabcdefghijklmnopqrstuvwxyz0123456789+/", 48) + "\n=" + r.Str("ABCDabcd0123", 4) + "\n-----END PGP SIGNATURE-----\n"
+	head := "-----BEGIN PGP SIGNED MESSAGE-----\nHash: " + r.Pick([]string{"SHA256", "SHA512", "SHA1"}) + "\n\n"
+	switch r.Intn(10) {
+	case 0: // cut before the signature
+		return head + doc
+	case 1: // header only
+		return head
+	case 2: // a bare signature / key armor instead of a signed message
+		return sig
+	case 3:
+		return "-----BEGIN PGP PUBLIC KEY BLOCK-----\n\n" + r.Str("ABCDEFabcdef0123456789+/", 64) + "\n-----END PGP PUBLIC KEY BLOCK-----\n" + doc
+	case 4: // no blank line after the armor headers
+		return "-----BEGIN PGP SIGNED MESSAGE-----\nHash: SHA256\n" + doc + sig
+	case 5: // the first line is only a prefix of the armor header
+		return "-----BEGIN PGP " + doc + sig
+	case 6: // text after the signature
+		return head + doc + sig + doc
+	default:
+		full := head + doc + sig
+		if r.Chance(1, 3) {
+			return full[:r.Intn(len(full)+1)]
+		}
+		return full
+	}
+}
+
 func c18Seed(r *core.Rand) (string, string) {
+	if r.Chance(1, 10) {
+		_, s := c18SeedPlain(r)
+		return "armored", c18Armor(r, s)
+	}
+	return c18SeedPlain(r)
+}
+
+func c18SeedPlain(r *core.Rand) (string, string) {
 	switch r.Intn(9) {
 	case 0:
 		return "version", gen.Version(r).Text
